@@ -1,4 +1,97 @@
 // C01 — security handshakes authenticate the remote peer's identity.
+//
+// Message-level simulation of the REAL Noise and TLS security transports (and, in two smaller strata,
+// of the real upgrader and the real swarm dial path) with an adversary who owns the wire or sits at
+// the other end. Everything of go-libp2p that runs here is instrumented (lock-level scheduling).
+//
+// Strata (first draw of the tape, 16 : 3 : 1)
+//
+//	pipe      SecureOutbound / SecureInbound on the two ends of a raw simnet connection (piperun_test.go):
+//	          config     no adversary; key type per side x expectation per side x Noise session options
+//	                     (prologue pairing, DisablePeerIDCheck, early data); optionally a second concurrent
+//	                     session in which one party is the same process (same transport object)
+//	          wire       Mallory (mitm_test.go: frame-aware on top of simnet's chunk hook) edits ONE handshake
+//	                     frame: flip a byte, truncate / extend with or without corrected length field, drop,
+//	                     duplicate, deliver the head and tear the connection down
+//	          splice     two concurrent sessions: the same frame of both exchanged, or all frames crossed
+//	                     (sessions re-paired: whoever completes must report whom it REALLY talked to)
+//	          replay     a clean session is recorded, then one frame / a whole direction of a second session
+//	                     between the same processes is replaced by the recording
+//	          byzantine  Mallory terminates the connection herself (byz_test.go: flynn/noise resp. crypto/tls
+//	                     driven directly) and presents a forged NoiseHandshakePayload / certificate
+//	upgrader  tptu.New + Upgrade on both ends, security lists [noise tls] | [tls noise] | [noise] | [tls] per
+//	          side; Mallory edits a multistream-select frame of the security negotiation (upgrader_test.go)
+//	swarm     node A dials peer P at an address that honest node Q serves; A's security transport is the real
+//	          one or one that does not check the peer it was asked for (swarm_test.go)
+//
+// Oracles (violation classes) and where they come from
+//
+//	wrong-identity, remote-peer-not-derived-from-key, remote-key-missing
+//	      statement clause 1: who completes reports RemotePeer() == IDFromPublicKey(RemotePublicKey()) == the
+//	      identity of the process whose handshake messages it consumed (ground truth of the harness)
+//	expected-peer-ignored
+//	      clause 2: a side that named a peer (and did not disable the check) and talked to somebody else fails
+//	altered-handshake-accepted/<proto>/<role>/<edit>
+//	      clause 3, per RECEIVING side: it consumed a frame that Mallory altered, cut, replaced by another
+//	      session's or an earlier session's frame, or never got it => it does not complete
+//	forged-credential-accepted/<proto>/<role>/<variant>, tls-chain-length-accepted
+//	      clause 3 for a Byzantine peer: identity key / signature substituted, credential made for another
+//	      session (other static key / other certificate key), signature empty or garbage, extension absent;
+//	      chain length 0 / 2 (libp2p TLS specification: exactly one certificate)
+//	prologue-ignored            doc of noise.Prologue: completes only if both parties set the same prologue
+//	early-data-altered/-forged  a side that completes holds exactly the early data its partner sent
+//	forged-data-accepted        the first Read after the handshake never returns bytes the partner did not write
+//	dial-returned-wrong-peer, swarm-lists-conn-to-unauthenticated-peer, swarm-connected-to-unauthenticated-peer,
+//	swarm-conn-wrong-identity   clause 4: DialPeer(P) never hands out / leaves behind a connection for P that
+//	                            was authenticated as somebody else
+//	honest-handshake-refused    not a clause of the statement but the guard against vacuity: without adversary
+//	                            and with compatible settings both sides complete and exchange data
+//
+// Weaker readings taken (soundness)
+//
+//   - Per receiving side: the Noise XX initiator legitimately completes when only message 3 (which it SENT)
+//     is altered; a TLS 1.3 client legitimately returns from SecureOutbound when the server refuses it. For a
+//     TLS client "completes" therefore means handshake returned AND the first Read delivered the peer's bytes.
+//   - A duplicate / junk that arrives after the last handshake frame a side reads in that direction is
+//     transport data (its Read must fail: forged-data-accepted), not handshake data it should have refused.
+//   - TLS 1.3 leaves the legacy version bytes of the first record of each direction and dummy
+//     ChangeCipherSpec records unauthenticated: never edited, never counted as handshake frames.
+//   - multistream-select frames are unauthenticated by design: for them only clauses 1 and 2 are asserted.
+//   - A certificate whose X.509 self-signature is invalid (signed with another key) but whose libp2p
+//     extension and CertificateVerify are genuine is ACCEPTED by the code (cert.Verify with the certificate
+//     as its own root never checks the signature). The peer reported is the true one, so this is not a
+//     violation of the statement; it deviates from the libp2p TLS specification ("abort ... if the
+//     certificate's self-signature is not valid"). Counted by probe tls-invalid-self-signature-accepted.
+//   - Removing only ONE of the swarm's two re-checks (dialAddr, dialPeer) is not observable: the other one
+//     still refuses. The oracle is about what DialPeer hands out.
+//
+// Determinism: crypto/rand cannot be pinned, so key bytes, nonces, ciphertext and the DER-dependent lengths
+// never reach signature, classes or scheduling: keys are named by (type, slot); fragmenting link modes are
+// used only when every length on the wire is a function of the tape (Noise with Ed25519 / RSA identities);
+// for frames of random length the position draw selects header or body first, body offsets are taken
+// modulo the actual length (all body bytes of such frames are AEAD ciphertext: same outcome), length
+// fields are changed by +-1..3 / +256 / halved instead of XORed, truncations remove 1..16 bytes, a flip
+// inside a ClientHello's ML-KEM key share keeps the coefficients in range. A stalled handshake is ended
+// by a watchdog one virtual second before its context deadline (Noise arms connection deadline and
+// context timer for the same instant; which fires first is up to the Go runtime).
+//
+// Sensitivity (each mutation applied alone to a private copy of the generated overlay, 8 workers; all
+// reported within 5 s of running):
+//
+//	noise: signature verdict ignored for RSA keys          -> forged-credential-accepted/noise/*/{credential-of-another-session,empty-signature,signature-by-other-key,...}
+//	noise: peer-ID check only when s.initiator             -> expected-peer-ignored/noise/responder, expected-peer-ignored/upgrader/responder
+//	noise: signature verified against the LOCAL static key -> honest-handshake-refused/noise/*, /upgrader/*
+//	noise: Prologue not passed to the handshake state      -> prologue-ignored/*, honest-handshake-refused/noise/* (Byzantine control with prologue)
+//	noise: remoteID kept from the caller when one was given-> remote-peer-not-derived-from-key/noise/*, swarm-conn-wrong-identity/noise, wrong-identity/swarm/noise
+//	tls: `valid` of the extension signature ignored        -> forged-credential-accepted/tls/*/{identity-key-substituted,signature-by-other-key,credential-of-another-session,garbage-signature}
+//	tls: MatchesPublicKey check removed from ConfigForPeer -> expected-peer-ignored/tls/{initiator,responder}
+//	tls: len(chain) != 1 relaxed to < 1                    -> tls-chain-length-accepted/*/chain-length-2
+//	tls: ConfigForPeer without Clone()                     -> honest-handshake-refused/tls/* (concurrent sessions of one transport)
+//	upgrader: SecureInbound called with "" instead of p    -> expected-peer-ignored/upgrader/responder
+//	swarm: both re-checks of RemotePeer() removed          -> dial-returned-wrong-peer/{noise,tls} (lax transport)
+//	swarm: only dialAddr's or only dialPeer's re-check removed -> NOT reported (masked by the other one, see above)
+//	(sanity of the refusal oracle) noise responder returns nil when reading message 3 fails
+//	                                                       -> altered-handshake-accepted/noise/responder/{flip,trunc-fix,extend-fix,replay-dir,...}, remote-key-missing, early-data-altered
 package c01
 
 import (
